@@ -67,11 +67,18 @@ def gen_cmd(rng, k, script_mode):
                             # the captured command has redirections of its own
                             "vp_out K %s > cf1" % tag, "vp_out K %s 2> cf2" % tag, "vp_out K %s > cf1 2> cf2" % tag,
                             "vp_out K %s >> cf1" % tag, "vp_out K %s | vp_io C %s > cf1" % (tag, tag), "vp_io C %s <<< w 2> cf2" % tag,
-                            "vp_out K %s | vp_io C %s | vp_st flt 0 %s" % (tag, tag, tag)] +
+                            "vp_out K %s | vp_io C %s | vp_st flt 0 %s" % (tag, tag, tag),
+                            # a builtin that itself starts programs while its own output is being captured
+                            "source $VP_INC/inc.sh",
+                            # captured output (and captured error output) that is not text: the capture ends on its error path
+                            "vp_out B " + tag, "vp_out B %s 2>&1" % tag, "vp_out B %s | vp_st flt 0 %s" % (tag, tag),
+                            "vp_out B %s 2> cf2" % tag, "vp_out B %s > cf1" % tag] +
                            (["myfn a " + tag] if script_mode else []))
         form = rng.choice(["$(%s)", "`%s`", "x$(%s)y", "\"$(%s)\""])
         outer = rng.choice(["vp_argv %s " + tag, "vp_argv %s " + tag + " | vp_st snk " + tag, "V=%s"])
         feats = ["inner=" + inner.split()[0], "form=" + form[0]]
+        if inner.startswith("vp_out B "):
+            feats.append("captured-output-undecodable")
         if " cf" in inner:
             feats.append("inner-redirected=" + "+".join(w for w in inner.split() if w in (">", ">>", "2>")))
         return outer % (form % inner), kind, feats
@@ -102,6 +109,10 @@ def run_script(sb, case):
         f.write("input\n")
     with open(os.path.join(sb.vpdir, "out.K"), "w") as f:
         f.write("kout\n")
+    with open(os.path.join(sb.vpdir, "out.B"), "wb") as f:
+        f.write(b"\xff\xfeb\xe9t\n")
+    with open(os.path.join(sb.vpdir, "err.B"), "wb") as f:
+        f.write(b"\xfferr\x80\n")
     with open(os.path.join(sb.root, "inc.sh"), "w") as f:
         f.write("vp_argv inc @0\nvp_out K @0 | vp_st snk @0\nSV=1\n")
     lines = ["vp_snap S"]
